@@ -8,6 +8,8 @@ CONSTANTS
   MaxMig = 3
   Serial = FALSE
   Requesters = {1}
+  MCPages <- ScenPagesCtrl
+  SkipZero = FALSE
   AcceptGuard = "handling"
   LazyCtrl = TRUE
 INVARIANTS ContentsCopied NothingElseChanged CompleteOnce OneAtATime RoutedBack
